@@ -35,7 +35,7 @@ CHECKS["C07"] = dict(level="fault_enumeration", ref="DESIGN.md §4 C07",
          "NULL, a genuine input error, EIO/EOF inside RunFile, or a failed database load — with k spread over the whole call (measured per history), "
          "then LoadDatabase(String), a getter sweep and 1-3 probes. Oracle: everything observable after the load, including the file layer's record of "
          "opened paths, modes and byte counts, equals a fresh instance given the same setters, load and probes; ASan/UBSan silent.",
-    note="Trusted: reference execution is the same library on a fresh instance; ids in default names masked; names given by -file in input count as user-set names (allowed to survive). Fault positions are sampled (log-uniform fraction of the call), not enumerated exhaustively in the quick tier.",
+    note="Trusted: reference execution is the same library on a fresh instance; ids in default names masked; names given by -file in input count as user-set names (allowed to survive). Crash positions: the quick tier samples them (log-uniform fraction of the call, plus one seeded sample from every stratum of 13 consecutive message / allocation indices of thirteen short runs); the thorough tier enumerates every index of those thirteen runs.",
     technique="deterministic simulation: seeded histories with injected crash points (abort at k-th message, k-th allocation NULL, read EIO, failed load) vs fresh-instance reference execution")
 
 CHECKS["C08"] = dict(level="fault_enumeration", ref="DESIGN.md §4 C08",
@@ -145,6 +145,6 @@ def main():
 
 
 HOOK_COMMITS = ["f732ec2d"]
-FIX_COMMITS = ["534640d9", "56cd6cbd", "16e4b988", "75d6d0dd", "8109e7ed", "63c515ea", "d473780a", "357c1413", "db73fc0e", "b50adf6f", "f225fd17", "090b168e", "7bc9a0c2", "eb497cc1", "837129af"]
+FIX_COMMITS = ["534640d9", "56cd6cbd", "16e4b988", "75d6d0dd", "8109e7ed", "63c515ea", "d473780a", "357c1413", "db73fc0e", "b50adf6f", "f225fd17", "090b168e", "7bc9a0c2", "eb497cc1", "837129af", "267d508a", "a9df45fa", "a31e1487"]
 if __name__ == "__main__":
     main()
